@@ -437,3 +437,127 @@ pub open spec fn final_written_matches(w: Seq<u8>, w0: Seq<u8>, img: Seq<u8>) ->
                     assert(socket.written().take(old(socket).written().len() as int) =~= old(socket).written());
                 }
 //@ end
+
+// ---------------------------------------------------------------- SocksRequest readers (C03 inbound, C12)
+
+/// NUL-terminated field at the head of b: its length k (bytes before the terminator)
+pub open spec fn nul_field(b: Seq<u8>, k: int) -> bool { first_index_of(b, 0u8, k) }
+
+//@ contract SocksAuthServer::auth_v4
+    ensures true,
+//@ end
+
+//@ contract SocksRequest::read_v4
+    ensures
+        final(socket).written() == old(socket).written(),
+        // SOCKS4 / 4a request after the version byte: CD DSTPORT(2) DSTIP(4) USERID NUL [HOST NUL]
+        ret.is_ok() ==> {
+            let s = old(socket).inp();
+            let r = ret.unwrap();
+            &&& s.len() >= 7 && r.version == 4 && r.cmd == s[0]
+            &&& exists|k1: int| #[trigger] nul_field(s.skip(7), k1) && {
+                    let dst = be32(s.subrange(3, 7));
+                    let port = be16(s.subrange(1, 3));
+                    if dst != 0 && dst < 0x100 {
+                        // 4a: the destination is exactly the bytes between the two terminators
+                        exists|k2: int| #[trigger] nul_field(s.skip(8 + k1), k2)
+                            && ta_view(r.target) == AddrV::Domain(s.subrange(8 + k1, 8 + k1 + k2), port)
+                            && final(socket).inp() == s.skip(9 + k1 + k2)
+                    } else {
+                        ta_view(r.target) == AddrV::V4(dst, port) && final(socket).inp() == s.skip(8 + k1)
+                    }
+                }
+        },
+//@ end
+
+//@ hint SocksRequest::read_v4 before `read_null_terminated_string(socket)` nth=0
+        let ghost s0 = old(socket).inp();
+        let ghost s7 = socket.inp();
+        let ghost p7 = socket.pos();
+        proof {
+            assert(be16(s0.skip(1)) == be16(s0.subrange(1, 3)));
+            assert(be32(s0.skip(1).skip(2)) == be32(s0.subrange(3, 7)));
+            assert(s7 =~= s0.skip(7));
+        }
+//@ end
+
+//@ hint SocksRequest::read_v4 before `let target = if dst != 0 && dst < 0x100 {`
+        let ghost k1 = socket.pos() - p7 - 1;
+        let ghost s8 = socket.inp();
+        let ghost p8 = socket.pos();
+        proof {
+            assert(nul_field(s7, k1));
+            assert(s8 =~= s0.skip(8 + k1));
+        }
+//@ end
+
+//@ hint SocksRequest::read_v4 before `TargetAddress::DomainPort(domain, dport)`
+            proof {
+                let k2 = socket.pos() - p8 - 1;
+                assert(nul_field(s8, k2));
+                assert(s8.take(k2) =~= s0.subrange(8 + k1, 8 + k1 + k2));
+                assert(socket.inp() =~= s0.skip(9 + k1 + k2));
+            }
+//@ end
+
+//@ contract SocksRequest::read_v5
+    ensures
+        // after the method negotiation and the authentication exchange (whatever they consumed), the request
+        // VER CMD RSV ATYP DST.ADDR DST.PORT is parsed exactly and exactly its bytes are consumed
+        ret.is_ok() ==> exists|a: int| 0 <= a && a + 3 <= old(socket).inp().len() && {
+            let q = #[trigger] old(socket).inp().skip(a);
+            let r = ret.unwrap();
+            &&& r.version == q[0] && r.cmd == q[1]
+            &&& s5_addr_parse(q.skip(3)).is_some()
+            &&& ta_view(r.target) == s5_addr_parse(q.skip(3)).unwrap().0
+            &&& final(socket).inp() == q.skip(3 + s5_addr_parse(q.skip(3)).unwrap().1 as int)
+        },
+//@ end
+
+//@ hint SocksRequest::read_v5 before `let version = socket.read_u8().context("read version")?;`
+        let ghost s0 = old(socket).inp();
+        let ghost a = socket.pos() - old(socket).pos();
+        let ghost q = socket.inp();
+        proof {
+            // everything so far only moved the stream forward: q is s0 minus the a bytes consumed
+            assert(q =~= s0.skip(a));
+        }
+//@ end
+
+//@ hint SocksRequest::read_v5 before `let target = match atype {`
+        let ghost a0 = q.skip(3);
+        proof {
+            assert(q.skip(1).skip(1).skip(1) =~= a0);
+            assert(socket.inp() =~= a0.skip(1));
+            assert(a0.len() >= 1 && a0[0] == atype);
+        }
+//@ end
+
+//@ hint SocksRequest::read_v5 before `(dst, dport).into()` nth=0
+                proof {
+                    assert(be32(a0.skip(1)) == be32(a0.subrange(1, 5)));
+                    assert(be16(a0.skip(1).skip(4)) == be16(a0.subrange(5, 7)));
+                    assert(socket.inp() =~= a0.skip(7));
+                    assert(q.skip(10) =~= a0.skip(7));
+                }
+//@ end
+
+//@ hint SocksRequest::read_v5 before `TargetAddress::DomainPort(domain, dport)`
+                proof {
+                    let n = a0[1] as int;
+                    assert(a0.skip(1).subrange(1, 1 + n) =~= a0.subrange(2, 2 + n));
+                    assert(be16(a0.skip(1).skip(1 + n)) == be16(a0.subrange(2 + n, 4 + n)));
+                    assert(socket.inp() =~= a0.skip(4 + n));
+                    assert(q.skip(3 + 4 + n) =~= a0.skip(4 + n));
+                    axiom_string_utf8(domain);
+                }
+//@ end
+
+//@ hint SocksRequest::read_v5 before `(dst, dport).into()` nth=1
+                proof {
+                    assert(a0.skip(1).take(16) =~= a0.subrange(1, 17));
+                    assert(be16(a0.skip(1).skip(16)) == be16(a0.subrange(17, 19)));
+                    assert(socket.inp() =~= a0.skip(19));
+                    assert(q.skip(22) =~= a0.skip(19));
+                }
+//@ end
